@@ -875,3 +875,18 @@ PROPS["C02"]["claim"] += (" Four deviations of the link scanner confirmed by the
     "other control characters are the recorded finding link-destination-control-char-differs) - hence accepts exactly the grammar "
     "(model_pointy_destination_in_grammar, model_bare_destination_balanced with C02Link's completeness theorems). The failing inputs are regression "
     "cases of the components cmlink (cmlinkFixed) and convert (cvPrescribed, clauses link-*-differs).")
+
+# ---- session 4, e2e round 4: the renderer properties end to end, unconditional ----
+PROPS["C03"]["claim"] += (" UNCONDITIONAL since the default pipeline is proved total (convert_safe_wellformed_total): for EVERY byte string, every Unicode class "
+    "assignment and every option set with Unsafe off, the composed model answers HTML and that HTML passes safeHtmlOK (and xmlOK with XHTML); "
+    "convert_safe_grammar_total gives it as a word of the grammar WFHtml.")
+PROPS["C04"]["claim"] += (" UNCONDITIONAL (convert_safe_urls_harmless_total): for every byte string the safe-mode HTML exists, tokenizes, and Spec.urlsOK holds of its tokens.")
+PROPS["C10"]["claim"] += (" UNCONDITIONAL (convert_options_orthogonal_total, convert_one_tree_for_all_options, convert_unsafe_only_changes_raw_total): for every "
+    "byte string all eight option sets answer HTML, from ONE option-free piece list, with the four licensed factorisations; the error alternative is gone.")
+PROPS["C01"]["claim"] += (" no_renderer_side_panic (a stated-only definition since round 1 of package e2e) is now a theorem. With parser.WithAutoHeadingID "
+    "(convertH): everything behind the block phase is total (converth_total_of_block_phase) and for every source convertH true answers HTML or its block "
+    "phase ended in the one panic not yet excluded, lastLine.Value in generateAutoHeadingID (converth_total_or_value_panic; it needs the heading's last "
+    "line in range at the moment Close runs - an intermediate-state fact).")
+PROPS["C15"]["claim"] += (" With totality (e2e round 4): c15_end_to_end_or_value_panic - for every byte string either all C15 conclusions hold of an HTML that "
+    "EXISTS, or the block phase hit the one panic site not yet excluded (lastLine.Value in generateAutoHeadingID, atx_heading.go:203; searched: never "
+    "observed).")
